@@ -1,5 +1,6 @@
 import Toq.Driver.QJson
 import Toq.Model.Xor
+import Toq.Model.XorPath
 /-! Driver front end for C08 (XOR games, Tsirelson certificates, Bell expressions).
 
 Rationals are `[num, den]` or an integer; rational vectors / matrices are flat row-major lists of rationals;
@@ -17,6 +18,10 @@ exact matrices for certificates are either dyadic `{"e":k,"re":[…],"im":[…]}
 * `c08_bell_strategy {"m","n","J","a","b","N","rho","Lrho","k","A":[mat…],"B":[mat…]}` → `{"ok":rat}` / reject
 * `c08_bell_det    {"m","n","J","a","b"}`                            → `{"value":rat}`
 * `c08_bell_affine {"m","n","J","a","b","aval":[r,r],"bval":[r,r]}` → `{"J","a","b","const"}`
+* `c08_classical_path {"m","n","prob","pred","reps"}`               → `{"value":rat}` / `{"value":null}` — the mirror of
+  `XORGame(prob, pred, reps).classical_value()` = `to_nonlocal_game().classical_value()` (`xorClassicalCall`)
+* `c08_init        {"q0","q1","p0","p1","prob":[rat…],"tol":rat|null}` → `{"status":"ok"|"size"|"negative"|"sum","tol":rat}`
+  — the guards of `XORGame.__init__` (`xorInit`)
 
 The verdict of every certificate op is the one of the verified checker of `Toq.Model.Xor`; the diagnostics
 only word a rejection by re-evaluating the same named conditions. -/
@@ -182,9 +187,29 @@ def hBellAffine : Handler := fun j => do
   return Json.mkObj [("J", ratListJson (flat2 m n r.1)), ("a", ratListJson ((List.range m).map r.2.1)),
     ("b", ratListJson ((List.range n).map r.2.2.1)), ("const", ratJson r.2.2.2)]
 
+def hClassicalPath : Handler := fun j => do
+  let m ← getNat j "m"; let n ← getNat j "n"; let reps ← getNat j "reps"
+  let prob ← getRatList j "prob"; let pred ← getNatList j "pred"
+  lenCheck [("prob", prob.length, m * n), ("pred", pred.length, m * n)]
+  if reps == 0 then throw "reps must be positive"
+  match xorClassicalCall m n reps (ratFn2 prob n) (natFn2 pred n) with
+  | some v => return Json.mkObj [("value", ratJson v)]
+  | none => return Json.mkObj [("value", Json.null)]
+
+def hInit : Handler := fun j => do
+  let q0 ← getNat j "q0"; let q1 ← getNat j "q1"; let p0 ← getNat j "p0"; let p1 ← getNat j "p1"
+  let prob ← getRatList j "prob"
+  lenCheck [("prob", prob.length, q0 * q1)]
+  if q0 == 0 || q1 == 0 then throw "empty probability matrix"
+  let tol : Option Rat ← (if isNull j "tol" then pure none else do let t ← getRat j "tol"; pure (some t))
+  let st := match xorInit q0 q1 p0 p1 (ratFn2 prob q1) tol with
+    | .ok _ => "ok" | .sizeMismatch => "size" | .negative => "negative" | .notNormalised => "sum"
+  return Json.mkObj [("status", Json.str st), ("tol", ratJson (xorTol q0 q1 tol))]
+
 def handlers : List (String × Handler) :=
   [("c08_dmat", hDmat), ("c08_nlg_pred", hNlgPred), ("c08_classical", hClassical), ("c08_dual_mat", hDualMat),
    ("c08_value", hValue), ("c08_primal", hPrimal), ("c08_dual", hDual), ("c08_bell_dual", hBellDual),
-   ("c08_bell_strategy", hBellStrategy), ("c08_bell_det", hBellDet), ("c08_bell_affine", hBellAffine)]
+   ("c08_bell_strategy", hBellStrategy), ("c08_bell_det", hBellDet), ("c08_bell_affine", hBellAffine),
+   ("c08_classical_path", hClassicalPath), ("c08_init", hInit)]
 
 end Toq.Driver.C08
